@@ -161,3 +161,143 @@ Section Final.
     apply (i_lang _ _ _ HI [] (pre_nil _)) in Hacc. simpl in Hacc. specialize (Hmax _ Hacc). rewrite app_length in Hmax. simpl in Hmax. lia.
   Qed.
 End Final.
+
+(* ---------- the numbered DFA, partial and complete ---------- *)
+Section NumberedMinimal.
+  Variables (syms : list nat) (s : flst) (done : list word).
+  Hypothesis HI : Inv s done [].
+  Hypothesis HM : InvM s [].
+  Hypothesis Hne : done <> [].
+  Hypothesis Hnd : NoDup syms.
+  Hypothesis Hover : forall w, In w done -> word_over syms w.
+
+  Let keys := fl_names s.
+  Let g := wnum keys.
+  Let m := fl_number syms s.
+
+  Lemma m_valid : valid_dfa m = true.
+  Proof. exact (num_valid syms s done HI Hnd Hover). Qed.
+
+  Lemma state_key i : In i (d_states m) -> exists q, key q (fl_trans s) /\ g q = i.
+  Proof.
+    intro Hi. unfold m, fl_number in Hi. simpl in Hi. fold keys in Hi.
+    rewrite <- (wnum_seq keys (i_nodup _ _ _ HI)) in Hi. apply in_map_iff in Hi. destruct Hi as [q [E Hq]].
+    exists q. split; [apply key_In; exact Hq|exact E].
+  Qed.
+
+  Lemma m_acc_from q w : key q (fl_trans s) -> dfa_acc_from m (Some (g q)) w = wacc s q w.
+  Proof. intro Hk. exact (num_acc_from syms s done HI w q Hk). Qed.
+
+  Lemma m_reach q : key q (fl_trans s) -> exists x, dfa_run m (Some (d_init m)) x = Some (g q).
+  Proof.
+    intro Hk. destruct (m_acc _ _ HM q Hk) as [x Hx]. exists x. change (d_init m) with (g []).
+    pose proof (num_run syms s done HI x [] (root_key s done HI)) as Hr. fold keys in Hr. fold g in Hr. fold m in Hr.
+    rewrite Hr. transitivity (option_map g (Some q)); [f_equal; exact Hx|reflexivity].
+  Qed.
+
+  Lemma m_dist_states r1 r2 : In r1 (d_states m) -> In r2 (d_states m) -> r1 <> r2 ->
+    exists w, dfa_acc_from m (Some r1) w <> dfa_acc_from m (Some r2) w.
+  Proof.
+    intros H1 H2 Hn. destruct (state_key r1 H1) as [q1 [K1 <-]]. destruct (state_key r2 H2) as [q2 [K2 <-]].
+    destruct (final_dist s done HI HM Hne q1 q2 K1 K2) as [w Hw]; [congruence|].
+    exists w. rewrite !m_acc_from by assumption. exact Hw.
+  Qed.
+
+  Lemma m_live r : In r (d_states m) -> exists w, dfa_acc_from m (Some r) w = true.
+  Proof.
+    intro H. destruct (state_key r H) as [q [K <-]]. destruct (final_live s done HI Hne q K) as [v Hv].
+    exists v. rewrite m_acc_from by assumption. exact Hv.
+  Qed.
+
+  Theorem partial_is_minimal : is_minimal m = true.
+  Proof.
+    apply is_minimal_intro.
+    - exact m_valid.
+    - intros r Hr. destruct (state_key r Hr) as [q [K <-]]. apply m_reach. exact K.
+    - exact m_dist_states.
+    - intros _. exact m_live.
+  Qed.
+
+  (* the complete form *)
+  Let mc := fl_complete m.
+  Let trap := fresh_state m.
+
+  Lemma mc_run x : forall q t, In q (d_states m) -> dfa_run m (Some q) x = Some t -> dfa_run mc (Some q) x = Some t.
+  Proof.
+    induction x as [|a x IH]; intros q t Hq H; simpl in *; [exact H|].
+    destruct (d_delta m q a) as [t'|] eqn:Ed; [|rewrite dfa_run_None in H; discriminate].
+    unfold mc. rewrite fl_complete_completed. rewrite (completed_delta m m_valid q a Hq), Ed.
+    destruct (delta_in_states m m_valid _ _ _ Ed) as [Ht Ha]. apply memb_In in Ha. rewrite Ha.
+    apply (IH t' t Ht H).
+  Qed.
+
+  Lemma init_state : In (d_init m) (d_states m).
+  Proof. destruct (valid_dfa_parts m m_valid) as (_ & _ & _ & _ & _ & H & _). exact H. Qed.
+
+  Lemma trap_reached : syms <> [] -> exists x, dfa_run mc (Some (d_init mc)) x = Some trap.
+  Proof.
+    intro Hs. assert (Ha0 : exists a0, In a0 syms) by (clear -Hs; destruct syms as [|a0 l]; [contradiction|exists a0; left; reflexivity]).
+    destruct Ha0 as [a0 Ha0].
+    destruct (longest_end s done HI Hne) as [w [q [Hw Hend]]].
+    assert (Hk : key q (fl_trans s)) by (apply (run_key s done HI w [] q (root_key s done HI) Hw)).
+    exists (w ++ [a0]). rewrite dfa_run_app. change (d_init mc) with (d_init m).
+    assert (Hrun : dfa_run m (Some (d_init m)) w = Some (g q)).
+    { change (d_init m) with (g []). pose proof (num_run syms s done HI w [] (root_key s done HI)) as Hr.
+      fold keys in Hr. fold g in Hr. fold m in Hr. rewrite Hr. transitivity (option_map g (Some q)); [f_equal; exact Hw|reflexivity]. }
+    rewrite (mc_run w _ _ init_state Hrun). simpl.
+    assert (Hgq : In (g q) (d_states m)).
+    { unfold m, fl_number. simpl. apply in_seq. split; [lia|]. simpl. apply wnum_lt. apply key_In. exact Hk. }
+    unfold mc. rewrite fl_complete_completed, (completed_delta m m_valid _ a0 Hgq).
+    assert (Hmem : memb a0 (d_syms m) = true) by (apply memb_In; exact Ha0).
+    rewrite Hmem. pose proof (num_delta syms s q a0 Hk) as Hd. fold keys in Hd. fold g in Hd. fold m in Hd.
+    rewrite Hd, Hend. reflexivity.
+  Qed.
+
+  Theorem complete_is_minimal : syms <> [] -> is_minimal mc = true.
+  Proof.
+    intro Hs. assert (Hvc : valid_dfa mc = true) by (unfold mc; rewrite fl_complete_completed; apply completed_valid; exact m_valid).
+    assert (Hst : forall r, In r (d_states mc) -> In r (d_states m) \/ r = trap).
+    { intros r Hr. unfold mc, fl_complete in Hr. simpl in Hr. apply in_app_or in Hr. destruct Hr as [Hr|[Hr|[]]]; [left; exact Hr|right; symmetry; exact Hr]. }
+    assert (Hold : forall r w, In r (d_states m) -> dfa_acc_from mc (Some r) w = dfa_acc_from m (Some r) w).
+    { intros r w Hr. unfold mc. rewrite fl_complete_completed. apply (completed_acc_from m m_valid w r Hr). }
+    assert (Htrap : forall w, dfa_acc_from mc (Some trap) w = false).
+    { intro w. unfold mc. rewrite fl_complete_completed. apply (trap_rejects m m_valid w). }
+    apply is_minimal_intro.
+    - exact Hvc.
+    - intros r Hr. destruct (Hst r Hr) as [Ho| ->].
+      + destruct (state_key r Ho) as [q [K <-]]. destruct (m_reach q K) as [x Hx]. exists x.
+        change (d_init mc) with (d_init m). apply (mc_run x _ _ init_state Hx).
+      + apply trap_reached. exact Hs.
+    - intros r1 r2 H1 H2 Hn. destruct (Hst r1 H1) as [O1| ->]; destruct (Hst r2 H2) as [O2| ->].
+      + destruct (m_dist_states r1 r2 O1 O2 Hn) as [w Hw]. exists w. rewrite !Hold by assumption. exact Hw.
+      + destruct (m_live r1 O1) as [w Hw]. exists w. rewrite (Hold r1 w O1), Hw, Htrap. discriminate.
+      + destruct (m_live r2 O2) as [w Hw]. exists w. rewrite (Hold r2 w O2), Hw, Htrap. discriminate.
+      + contradiction.
+    - intro Hp. discriminate.
+  Qed.
+End NumberedMinimal.
+
+(* ---------- the theorem ---------- *)
+Theorem fl_dfa_minimal syms lang as_partial :
+  NoDup syms -> NoDup lang -> (forall w, In w lang -> word_over syms w) ->
+  (as_partial = false -> lang <> [] -> syms <> []) ->
+  exists m, fl_dfa syms lang as_partial = Ok m /\ valid_dfa m = true /\ is_minimal m = true.
+Proof.
+  intros Hs Hl Ho Hside. destruct lang as [|w0 l] eqn:El.
+  - exists (empty_m syms). split; [reflexivity|]. split; [apply empty_valid; exact Hs|apply empty_is_minimal; exact Hs].
+  - rewrite <- El in *. assert (Hne : lang <> []) by (rewrite El; discriminate).
+    destruct (fl_build_ok_M lang Hl Hne) as [s [done [Eb [HI [HM Hd]]]]].
+    assert (Hov : forall w, In w done -> word_over syms w) by (intros w Hw; apply Ho; apply Hd; exact Hw).
+    assert (Hdne : done <> []).
+    { intro E. subst done. apply (Hd w0). rewrite El. left. reflexivity. }
+    pose proof (num_valid syms s done HI Hs Hov) as Hv.
+    assert (Efl : fl_dfa syms lang as_partial =
+                  bind (fl_build lang) (fun s => bind (validated (fl_number syms s)) (fun m =>
+                    if as_partial then Ok m else validated (fl_complete m)))) by (rewrite El; reflexivity).
+    rewrite Efl, Eb. simpl. rewrite (validated_ok _ Hv). simpl. destruct as_partial.
+    + exists (fl_number syms s). split; [reflexivity|]. split; [exact Hv|].
+      exact (partial_is_minimal syms s done HI HM Hdne Hs Hov).
+    + destruct (fl_complete_spec _ Hv) as (Hv' & _).
+      exists (fl_complete (fl_number syms s)). split; [apply validated_ok; exact Hv'|]. split; [exact Hv'|].
+      exact (complete_is_minimal syms s done HI HM Hdne Hs Hov (Hside eq_refl Hne)).
+Qed.
